@@ -60,11 +60,13 @@ def gates_consulted(year, run):
     out = {}
     texts = getattr(run, 'input_texts', None) or {}
     for e in run.rec.events:
-        if e[0] == 'RI' and e[3][0] == 'ok':
+        if (e[0] == 'RI' or e[0] == 'RL') and e[3][0] == 'ok':
             k = gate_key(e[2])
             ent = cat.get(k)
             if ent is None or e[1] is None:
                 continue
+            if bool(ent.get('via_line')) != (e[0] == 'RL'):
+                continue        # a gate on a statement is consulted through the statement's line of the same name
             reader_form = e[1].split('.')[0].split(':')[0]
             if reader_form not in ent['readers']:
                 continue
@@ -88,9 +90,9 @@ def gates_read(year, run):
     cat = gate_catalogue(year)['gates']
     out = {}
     for e in run.rec.events:
-        if e[0] == 'RI' and e[3][0] == 'ok' and e[1] is not None:
+        if (e[0] == 'RI' or e[0] == 'RL') and e[3][0] == 'ok' and e[1] is not None:
             ent = cat.get(gate_key(e[2]))
-            if ent is not None and e[1].split('.')[0].split(':')[0] in ent['readers']:
+            if ent is not None and bool(ent.get('via_line')) == (e[0] == 'RL') and e[1].split('.')[0].split(':')[0] in ent['readers']:
                 out.setdefault(e[2], e[1])
     return out
 
@@ -312,7 +314,11 @@ def limit_exceeded(case, run):
         except ValueError:
             return 0.0
     out = []
-    if lim['foreign_tax_1116']['reader_line'] in attempted:
+    # foreign tax: the limit counts as consulted when the line that enforces it was evaluated, and also when any line looked
+    # at the foreign tax amounts at all (a return that looks at them and then never reaches the enforcing line has skipped it)
+    looked = any(e[0] == 'RI' and e[3][0] == 'ok' and e[2].endswith(('.box_6', '.box_7')) and e[2].startswith('1099-')
+                 for e in run.rec.events)
+    if lim['foreign_tax_1116']['reader_line'] in attempted or looked:
         status = texts.get('1040.filing_status', '').strip()
         thr = lim['foreign_tax_1116']['threshold'].get(status, lim['foreign_tax_1116']['threshold']['other'])
         ni = int(num('1040.number_1099-int'))
@@ -353,7 +359,7 @@ def eval_limits(case, acc=None):
     year = case['persona']['year']
     for name, detail in ex:
         if run.outcome == 'solved':
-            fs.append(F(ID, 'C09.limit', f'{year}:{name}', f'{year}: {detail}, the enforcing line was evaluated, and the solve reported success'))
+            fs.append(F(ID, 'C09.limit', f'{year}:{name}', f'{year}: {detail}, the limit was consulted (its amounts were read), and the solve reported success'))
     # the gate oracle applies to every run as well
     consulted = gates_consulted(year, run)
     if consulted and run.outcome == 'solved':
